@@ -379,6 +379,27 @@ fn concurrent_history(rng: &mut Rng, rep: &Report) -> Option<u64> {
         rep.violation("appended-entry-misses-owner-mutation", witness("snapshot differs from the owner's last written tokens"));
         return None;
     }
+    if emitted_in_prefix == 0 {
+        // not later than due either: the append happens INSIDE the drop call that completes the
+        // condition, so its ticket precedes the return of that call. Once the owner and all handles
+        // have been dropped and (some force-flush guard has been dropped or had fired before), the
+        // entry must be there - a flush guard dropped later must not be what finally releases it.
+        let owners_done = drops.iter().filter(|d| matches!(d.0, Kind::Owner | Kind::Handle)).map(|d| d.2).max().unwrap_or(0);
+        let first_force_done = drops.iter().filter(|d| d.0 == Kind::Force).map(|d| d.2).min();
+        let due = if force_fired_in_prefix { Some(owners_done) } else { first_force_done.map(|f| f.max(owners_done)) };
+        if let Some(due) = due {
+            // (a drop call that had already begun by then may legitimately be the one that performs the
+            // release - e.g. the last flush guard's drop racing with the force-flush guard's)
+            let inside_a_call_begun_in_time = drops.iter().any(|d| d.1 <= due && d.1 < a.ticket && a.ticket < d.2);
+            if a.ticket > due && !inside_a_call_begun_in_time {
+                rep.violation(
+                    "not-appended-when-due",
+                    witness(&format!("the owner and every handle had been dropped and a force-flush guard had been dropped by ticket {due}, but the entry was appended only at ticket {}, inside a drop call that began after that (a flush guard that should no longer matter)", a.ticket)),
+                );
+                return None;
+            }
+        }
+    }
     let mut h = Fnv::new();
     h.str(&format!("{prefix:?}{kinds:?}"));
     // which drop triggered the append: the last drop that started before it
